@@ -175,11 +175,15 @@ fn check_dfs<D: Order + OutNeighbors + Clone>(d: &D, other: &D, other_src: &[usi
         crate::obs::iter_consistency(o, "DfsDist", || DfsDist::new(d, src.iter().copied()));
         crate::obs::iter_consistency(o, "DfsPred", || DfsPred::new(d, src.iter().copied()));
     }
-    // the three iterators must agree item by item
+    // Each iterator is judged on its own sequence above. The statement does
+    // not ask the three to pick the same preorder among the valid ones, so a
+    // disagreement is recorded for the evidence and not judged.
     let va: Vec<usize> = a.iter().map(|x| x.1).collect();
     let vb: Vec<usize> = b.iter().map(|x| x.1).collect();
     let vc: Vec<usize> = c.iter().map(|x| x.1).collect();
-    o.check(va == vb && vb == vc, "Dfs/DfsDist/DfsPred-disagree", || format!("Dfs {va:?} DfsDist {vb:?} DfsPred {vc:?}"));
+    if !(va == vb && vb == vc) {
+        o.bump("note: Dfs, DfsDist and DfsPred chose different preorders");
+    }
     // predecessors() is the forest of the DfsPred sequence
     let tree = DfsPred::new(d, src.iter().copied()).predecessors();
     let mut want = vec![None; n];
